@@ -15,6 +15,8 @@ import (
 	"sync"
 	"syscall"
 	"time"
+
+	"github.com/ErdemOzgen/blackdagger/verifh/pgrp"
 )
 
 // Pass is one group of shard processes of a property run.
@@ -96,6 +98,11 @@ func ShardMain(args []string) int {
 		c.SetProgress(pf)
 	}
 	p.Body(c)
+	if n := pgrp.Reused(); n > 0 {
+		// signals to a child's process group sent when the group's number already named another
+		// process (package pgrp: they reached the group's leftovers or nobody, not the new owner)
+		c.Count("group_signals_sent_after_the_pid_number_was_reused", n)
+	}
 	r := c.Result()
 	r.Done = true
 	b, _ := json.Marshal(r)
@@ -114,6 +121,9 @@ type shardRun struct {
 	log    string
 	err    error
 	killed bool
+	reruns int
+	// open case index ("" = none) at each death by a SIGKILL that was not the watchdog's
+	sigkillAt []string
 }
 
 // RunMain is the driver: `vcheck run <ID> <tier>` or `vcheck replay <path>`.
@@ -188,6 +198,7 @@ func RunMain(id, tier string, only int, seedOverride *int64) int {
 				n = 1
 			}
 			shScratch := filepath.Join(scratch, fmt.Sprintf("w-%s-%d", r.pass.Name, r.shard))
+		again:
 			_ = os.MkdirAll(shScratch, 0755)
 			cmd := exec.Command(bin, "shard", id, tier, strconv.FormatInt(seed, 10),
 				strconv.Itoa(r.shard), strconv.Itoa(n), strconv.Itoa(only), shScratch, r.pass.Mode, r.out)
@@ -204,6 +215,7 @@ func RunMain(id, tier string, only int, seedOverride *int64) int {
 				lf.Close()
 				return
 			}
+			grp := pgrp.Open(cmd.Process.Pid)
 			done := make(chan error, 1)
 			go func() { done <- cmd.Wait() }()
 			to := r.pass.Timeout
@@ -220,12 +232,35 @@ func RunMain(id, tier string, only int, seedOverride *int64) int {
 				case <-done:
 				case <-time.After(10 * time.Second):
 				}
-				_ = syscall.Kill(-cmd.Process.Pid, syscall.SIGKILL)
+				grp.Kill()
 				<-done
 			}
-			// best effort: kill leftovers of the group
-			_ = syscall.Kill(-cmd.Process.Pid, syscall.SIGKILL)
+			// best effort: kill leftovers of the group (by pidfd, see package pgrp: the shard has
+			// been reaped and its number may belong to somebody else by now)
+			grp.KillClose()
 			lf.Close()
+			// A shard process ended by a SIGKILL that is not the watchdog's was killed from outside:
+			// a Go process that panics or hits a fatal error exits with status 2 or dies of
+			// SIGABRT/SIGSEGV/SIGBUS, never of SIGKILL, and nothing in the harness, the supervisor or
+			// blackdagger signals a shard.  Such a death says nothing about the property, so the same
+			// shard - same seed, same cases - is run again, at most twice, and the re-run is
+			// reported.  Only a shard that dies of SIGKILL all three times at the SAME open case is
+			// handed to CrashKey (something in that case does it); otherwise it stays inconclusive.
+			if !r.killed && diedOfSigkill(r.err) {
+				if _, err := os.Stat(r.out); err != nil {
+					open := lastOpenCase(r.out + ".progress")
+					r.sigkillAt = append(r.sigkillAt, strings.SplitN(open, " ", 2)[0])
+					if r.reruns < 2 {
+						r.reruns++
+						logb, _ := os.ReadFile(r.log)
+						saveArtifact(id, seed, fmt.Sprintf("outside-kill-%s-%d.%d.log", r.pass.Name, r.shard, r.reruns), logb)
+						_ = os.Remove(r.out + ".progress")
+						_ = os.RemoveAll(shScratch)
+						r.err = nil
+						goto again
+					}
+				}
+			}
 		}(r)
 	}
 	wg.Wait()
@@ -233,6 +268,11 @@ func RunMain(id, tier string, only int, seedOverride *int64) int {
 	total := &ShardResult{}
 	perPass := map[string]*ShardResult{}
 	for _, r := range runs {
+		if r.reruns > 0 {
+			fmt.Printf("NOTE: pass %s shard %d was ended by a SIGKILL from outside the check and was run again (%d time(s)); logs: %s/%s-%d-outside-kill-*\n",
+				r.pass.Name, r.shard, r.reruns, replayDir(), id, seed)
+			Merge(total, &ShardResult{Counters: map[string]int64{"shards_run_again_after_a_sigkill_from_outside": int64(r.reruns)}})
+		}
 		b, err := os.ReadFile(r.out)
 		var sr ShardResult
 		if err == nil {
@@ -249,7 +289,13 @@ func RunMain(id, tier string, only int, seedOverride *int64) int {
 				continue
 			}
 			key, what := "", ""
-			if p.CrashKey != nil && open != "" {
+			sameCase := true
+			for _, at := range r.sigkillAt {
+				if at == "" || at != r.sigkillAt[0] {
+					sameCase = false
+				}
+			}
+			if p.CrashKey != nil && open != "" && sameCase {
 				key, what = p.CrashKey(open, string(logb))
 			}
 			if key == "" {
@@ -370,6 +416,15 @@ func RunMain(id, tier string, only int, seedOverride *int64) int {
 		id, tier, seed, verdict, total.Evaluations, distinct, len(fresh), len(kkeys), len(raceKeys), wall)
 	printCounters(total)
 	return exit
+}
+
+func diedOfSigkill(err error) bool {
+	ee, ok := err.(*exec.ExitError)
+	if !ok || ee.ProcessState == nil {
+		return false
+	}
+	ws, ok := ee.ProcessState.Sys().(syscall.WaitStatus)
+	return ok && ws.Signaled() && ws.Signal() == syscall.SIGKILL
 }
 
 func printCounters(t *ShardResult) {
